@@ -1,0 +1,21 @@
+//go:build verif
+
+package tsm1
+
+// This file is compiled only with the "verif" build tag. It exposes thin
+// wrappers over unexported engine entry points so that a simulator living in
+// another module can drive them. The wrappers contain no logic of their own.
+
+// VerifCompactGroup runs the engine's own compaction strategy (the code path
+// used by the background compaction loop) for one planned group and releases
+// the group back to the planner afterwards.
+func (e *Engine) VerifCompactGroup(group CompactionGroup, level int, fast, full, optimize bool) {
+	var s *compactionStrategy
+	if full {
+		s = e.fullCompactionStrategy(group, optimize)
+	} else {
+		s = e.levelCompactionStrategy(group, fast, level)
+	}
+	s.Apply()
+	e.CompactionPlan.Release([]CompactionGroup{group})
+}
